@@ -18,8 +18,10 @@ structure St where
   cfgL : List Product := []
   s : State := State.init
   lastMsg : String := ""
-  /-- per accepted message: the facts C02/C03 monitors need -/
-  dummy : Unit := ()
+  /-- the last accepted message with its environment (for the per-message monitors of C02 / C03) -/
+  lastOk : Option (Msg × Env) := none
+  /-- the real state before the last message -/
+  prev : Option State := none
 
 def init : St := {}
 
@@ -165,6 +167,61 @@ def overlay (l : List (Nat × Nat × Int)) (f : Nat → Nat → Int) : Nat → N
   | some x => x.2.2
   | none => f a d
 
+/-- per-message monitors, evaluated on the REAL states before / after an accepted message -/
+def msgMonitors (cfgL : List Product) (prev real : State) (m : Msg) (e : Env) : List String :=
+  let cfg := cfgOf cfgL
+  let delivers (p : Product) (user : Nat) (out taken : Int) : List String :=
+    let fee := feeOf out p.drawDownFee
+    let du := real.bal user p.denomOut - prev.bal user p.denomOut
+    let dc := real.bal cm p.denomOut - prev.bal cm p.denomOut
+    let expU := out - fee - (if p.denomOut = p.denomIn then taken else 0)
+    (if du = expU then [] else [s!"mint_delivers\tuser got {du}, recorded principal less fee is {expU}"]) ++
+    (if dc = fee then [] else [s!"mint_delivers\tcollector got {dc}, fee is {fee}"])
+  let ratio (p : Product) (vid : Nat) : List String :=
+    if e.esm then [] else
+    match real.vaults.find? (·.id = vid) with
+    | none => []
+    | some v =>
+      match calcCR p e v.amountIn (v.amountOut + v.interest + v.closingFee) with
+      | some r => if r ≥ p.minCr then [] else [s!"ratio_ok\tvault {vid}: ratio {r} < minCr {p.minCr}"]
+      | none => [s!"price_fail_closed\tvault {vid}: accepted although the ratio cannot be computed (price inactive)"]
+  match m with
+  | .create f _ pr i o =>
+    match cfg pr with
+    | none => []
+    | some p =>
+      delivers p f o i ++
+      (match calcCR p e i o with
+       | some r => if r ≥ p.minCr then [] else [s!"ratio_ok\tcreate: ratio {r} < minCr {p.minCr}"]
+       | none => ["price_fail_closed\tcreate accepted although the ratio cannot be computed (price inactive)"])
+  | .draw f _ pr v x => match cfg pr with
+    | none => []
+    | some p => delivers p f x 0 ++ ratio p v
+  | .withdraw _ _ pr v _ => match cfg pr with
+    | none => []
+    | some p => ratio p v
+  | .depositAndDraw _ _ pr v _ => match cfg pr with
+    | none => []
+    | some p => ratio p v
+  | .stableCreate f _ pr x => match cfg pr with
+    | none => []
+    | some p => delivers p f (otherToken x p.decIn p.decOut) x
+  | .stableDeposit f _ pr _ x => match cfg pr with
+    | none => []
+    | some p => delivers p f (otherToken x p.decIn p.decOut) x
+  | _ => []
+
+/-- C03 state monitors: floor and ceiling on the REAL state -/
+def limitMonitors (cfgL : List Product) (r : State) : List String :=
+  let cfg := cfgOf cfgL
+  let m1 := r.vaults.filterMap fun v => match cfg v.product with
+    | some p => if p.debtFloor ≤ v.amountOut then none else
+        some s!"floor_kept\tvault {v.id}: principal {v.amountOut} below debt floor {p.debtFloor}"
+    | none => none
+  let m2 := cfgL.filterMap fun p => if r.minted p.id ≤ p.debtCeiling then none else
+    some s!"ceiling_kept\tproduct {p.id}: minted {r.minted p.id} above debt ceiling {p.debtCeiling}"
+  m1 ++ m2
+
 def showV (v : VaultRec) : String := s!"{v.id}:{v.owner}:{v.product}:{v.amountIn}:{v.amountOut}:{v.interest}:{v.closingFee}"
 
 def handle (st : St) (seq : String) (f : List String) : St × List String :=
@@ -179,6 +236,7 @@ def handle (st : St) (seq : String) (f : List String) : St × List String :=
     | some m, some e =>
       let r := step (cfgOf st.cfgL) st.s e m
       let st' := { st with lastMsg := s!"{kind} {a1} {a2} {a3} {a4} {a5} [{env}]" }
+      let st' := { st' with lastOk := if outcome = "ok" then some (m, e) else none }
       match r with
       | some s' =>
         if outcome = "ok" then ({ st' with s := s' }, [])
@@ -194,11 +252,14 @@ def handle (st : St) (seq : String) (f : List String) : St × List String :=
     | some p =>
       let diffs := (compare st.cfgL st.s p).map fun d => s!"DIFF\t{seq}\tafter [{st.lastMsg}] {d}"
       let r := p.toState st.s
-      let mons := (monitors st.cfgL r).map fun m => s!"MON\t{seq}\t{m}\tafter [{st.lastMsg}]"
+      let perMsg := match st.prev, st.lastOk with
+        | some pv, some (m, e) => msgMonitors st.cfgL pv r m e
+        | _, _ => []
+      let mons := (monitors st.cfgL r ++ limitMonitors st.cfgL r ++ perMsg).map fun m => s!"MON\t{seq}\t{m}\tafter [{st.lastMsg}]"
       -- resynchronise on the real state so that later divergences are independent
       let old := st.s
       let resync : State := { r with bal := overlay p.bal old.bal }
-      ({ st with s := if diffs.isEmpty then old else resync }, diffs ++ mons)
+      ({ st with s := if diffs.isEmpty then old else resync, prev := some r, lastOk := none }, diffs ++ mons)
   | _ => (st, [s!"BAD\t{seq}\tunknown vault line"])
 
 end Comdex.Drv.Vault
